@@ -39,6 +39,10 @@ def run(tier):
     mts = [1, 4, 6, 7, 10, 14, 15, 21, 24] if q else [t for t in range(26) if t not in (5, 9, 12)]
     for ta, tb in itertools.product(mts, repeat=2):
         jobs.append(dict(base, harness="VerifC02Maven", params={"ta": ta, "tb": tb}))
+    # RubyGems: pairs of templates against the Gem::Version transcription
+    gts = [1, 2, 6, 7, 8, 9, 13, 16] if q else list(range(21))
+    for ta, tb in itertools.product(gts, repeat=2):
+        jobs.append(dict(base, harness="VerifC02RubyGems", params={"ta": ta, "tb": tb}))
     # long all-digit prerelease identifiers (npm, Cargo, Go)
     for sys in (1, 2, 4):
         for ia, ib in itertools.product(range(8), repeat=2):
@@ -49,5 +53,5 @@ def run(tier):
                         required_covers=["reference says less", "reference says equal", "a ten-digit numeric identifier"],
                         assumptions=["oracles are transcriptions of SemVer 2.0 §11 (npm, Cargo, Go), NuGet SemVer2 and packaging's _cmpkey (PyPI) over template fields; the real tools are not run",
                                      "Maven: a transcription of ComparableVersion.parseVersion/compareTo (3.6.x-3.8.6 algorithm) on the version text, over template pairs of the property's Maven domain; templates with a qualifier or number joined by '.' after the numeric prefix are left out because Maven 3.6 and 3.8.7 order them differently; counterexamples were adjudicated with the maven-artifact 3.8.7 jar on this image",
-                                     "RubyGems (Gem::Version) ordering is not decided: no transcription was built"],
+                                     "RubyGems: a transcription of the published Gem::Version#<=> (segments, canonical segments, string < number) on the version text over template pairs; no Ruby on this image to adjudicate"],
                         bounds={"semver": "3 components, <=2 prerelease identifiers of <=%d bytes" % (2 if q else 3), "pypi": "release <=4 single-digit components, single-digit numbers, one local segment"})
